@@ -384,6 +384,18 @@ neutral("N.policy-get-by-trait-default", "RandomPolicy drops its get override: t
         (POLICY, "    fn get(&self, key: &KeyType) -> Result<Record> {\n        self.store.get(key)\n    }\n\n", ""))
 neutral("N.delete-entry-api", "MemoryStore::delete through the entry API (compare and remove under the shard lock)",
         (STORE, '        let mut cas_match: Option<bool> = None;\n        match self.memory.remove_if(&key, |_key, record| -> bool {\n            let result = header.cas == 0 || record.header.cas == header.cas;\n            cas_match = Some(result);\n            result\n        }) {\n            Some(key_value) => Ok(key_value.1),\n            None => match cas_match {\n                Some(_value) => Err(CacheError::KeyExists),\n                None => Err(CacheError::NotFound),\n            },\n        }', '        match self.memory.entry(key) {\n            Entry::Occupied(entry) => {\n                if header.cas == 0 || entry.get().header.cas == header.cas {\n                    Ok(entry.remove())\n                } else {\n                    Err(CacheError::KeyExists)\n                }\n            }\n            Entry::Vacant(_vacant) => Err(CacheError::NotFound),\n        }'))
+neutral("N.expiry-saturating-add", 'the expiry sum written with saturating_add',
+        ('memcrs/src/memory_store/store.rs', '        if record.header.timestamp + (record.header.time_to_live as u64) > current_time {', '        if record.header.timestamp.saturating_add(record.header.time_to_live as u64) > current_time {'))
+neutral("N.expiry-sub-form", 'expiry predicate as now < timestamp + u64::from(ttl)',
+        ('memcrs/src/memory_store/store.rs', '        if record.header.timestamp + (record.header.time_to_live as u64) > current_time {', '        if current_time < record.header.timestamp + u64::from(record.header.time_to_live) {'))
+neutral("N.handle-while-let", 'Client::handle as `while let Ok(frame) = timeout(..)`',
+        ('memcrs/src/memcache_server/client_handler.rs', '        loop {\n            match timeout(\n                Duration::from_secs(self.config.rx_timeout_secs as u64),\n                self.stream.read_frame(),\n            )\n            .await\n            {\n                Ok(req_or_none) => {\n                    let client_close = self.handle_frame(req_or_none).await;\n                    if client_close {\n                        return;\n                    }\n                }\n                Err(err) => {\n                    debug!(\n                        "Timeout {}s elapsed, disconecting client: {}, error: {}",\n                        self.config.rx_timeout_secs, self.addr, err\n                    );\n                    return;\n                }\n            }\n        }', '        while let Ok(req_or_none) = timeout(\n            Duration::from_secs(self.config.rx_timeout_secs as u64),\n            self.stream.read_frame(),\n        )\n        .await\n        {\n            if self.handle_frame(req_or_none).await {\n                return;\n            }\n        }\n        debug!(\n            "Timeout {}s elapsed, disconecting client: {}",\n            self.config.rx_timeout_secs, self.addr\n        );'))
+neutral("N.memc-add-if-let", 'MemcStore::add with is_ok() and early return',
+        ('memcrs/src/memcache/store.rs', '        match self.get(&key) {\n            Ok(_record) => Err(CacheError::KeyExists),\n            Err(_err) => self.set(key, record),\n        }', '        if self.get(&key).is_ok() {\n            return Err(CacheError::KeyExists);\n        }\n        self.set(key, record)'))
+neutral("N.builder-if", 'from_config with if-let and early return',
+        ('memcrs/src/memcache/builder.rs', '        let store: Arc<dyn Cache + Send + Sync> = match config.policy {\n            EvictionPolicy::Random => {\n                Arc::new(RandomPolicy::new(store_engine, config.memory_limit))\n            }\n            EvictionPolicy::None => store_engine,\n        };\n        store', '        if let EvictionPolicy::Random = config.policy {\n            return Arc::new(RandomPolicy::new(store_engine, config.memory_limit));\n        }\n        store_engine'))
+neutral("N.delete-policy-inspect", 'policy delete credits the usage through Result::inspect',
+        ('memcrs/src/memcache/random_policy.rs', '        let result = self.store.delete(key, header);\n        if let Ok(record) = &result {\n            self.decr_mem_usage(record.len() as u64);\n        }\n        result', '        self.store.delete(key, header).inspect(|record| {\n            self.decr_mem_usage(record.len() as u64);\n        })'))
 neutral("N.request-valid-reordered", "request_valid tests in another order and with <=",
         (CODEC, "        if self.header.extras_length > 20 {\n            return false;\n        }\n\n        if self.header.key_length > 250 {\n            return false;\n        }", "        if self.header.key_length >= 251 {\n            return false;\n        }\n\n        if !(self.header.extras_length <= 20) {\n            return false;\n        }"))
 neutral("N.handler-get-key-len-once", "hit response computes key length once",
